@@ -22,7 +22,7 @@ PRIM = {'i8': (-128, 127), 'i16': (-2 ** 15, 2 ** 15 - 1), 'i64': (-2 ** 63, 2 *
 
 class Prop(BaseProp):
     coq_targets = ['ND/Proofs/C08_forms.vo', 'ND/Proofs/C08_lift.vo']
-    n_quick, n_thorough = 700, 12000
+    n_quick, n_thorough = 900, 12000
 
     def cases(self, rng, n):
         tys = genvals.type_list(self.tier, include32=False)
@@ -58,9 +58,9 @@ class Prop(BaseProp):
             if kind in GROUPS:
                 nargs = vlib.OPS[kind][2]
                 args = [val() for _ in range(nargs)]
-                if kind in ('product3', 'sum3', 'mul') and rng.below(3) == 0:
-                    # a factor / term with real part exactly zero and non-zero derivative parts
-                    zi = rng.below(nargs)
+                if kind in ('product3', 'sum3', 'mul') and rng.below(2) == 0:
+                    # a factor / term with real part exactly zero and non-zero derivative parts (not the last one: the running product / sum goes through zero)
+                    zi = rng.below(max(1, nargs - 1))
                     args[zi] = genvals.gen_value(rng, ty, genvals.leaf_rand, re_leaf=lambda r: 0.0)
                 add(kind, args)
                 for f in GROUPS[kind]:
